@@ -31,3 +31,7 @@ pub(crate) fn sinclair_event_to_zx_key(key: SinclairKey, num: SinclairJoyNum) ->
         (SinclairJoyNum::Second, SinclairKey::Fire) => ZXKey::N5,
     }
 }
+
+#[cfg(kani)]
+#[path = "/verif/hooks/core/sinclair.rs"]
+mod verif_hooks;
